@@ -26,7 +26,8 @@ static char g_sig[200];
 /* modes that run real, free-running threads (experiment workers): a finding may depend on their timing and is then
  * not replayable - signature class "free:", as for the free-running sanitizer pass */
 static const char *g_sigclass = "";
-#define FAIL(rule, ...) do { snprintf(g_sig, sizeof g_sig, "%sc15:%s", g_sigclass, rule); vx_violation(g_sig, __VA_ARGS__); } while (0)
+static const char *g_prop = "c15"; /* --opt prop=c16: the thread modes registered under C16 (samplers under concurrency) */
+#define FAIL(rule, ...) do { snprintf(g_sig, sizeof g_sig, "%s%s:%s", g_sigclass, g_prop, rule); vx_violation(g_sig, __VA_ARGS__); } while (0)
 
 /* ------------------------------------------------------------------ reference generator */
 struct refgen { uint64_t a, b, c, d; };
@@ -509,6 +510,7 @@ static void winit(void)
 static void ginit(void)
 {
     mode = vx_opt("mode", "identity");
+    g_prop = vx_opt("prop", "c15");
     nth = (int)vx_opt_int("nthreads", 2);
     cmb_logger_flags_off(0x7FFFFFFFu);
 }
